@@ -185,7 +185,18 @@ class Real(PackedOps, RandOps):
             values = self.scalar_for(m, kv['val'])
         else:
             values = self.array_for(m, split_list(kv['vals']))
-        if 'ring' in kv:
+        via = kv.get('via', 'update')
+        if via != 'update' and kv.get('op', 'replace') == 'replace':
+            # __setitem__ forms
+            if via == 'setitem_arr':
+                m[pix] = values
+            elif via == 'setitem_list':
+                m[[int(p) for p in pix]] = values
+            elif via == 'setitem_int':
+                m[int(pix[0])] = values
+            else:
+                raise BadOp(via)
+        elif 'ring' in kv:
             ring = np.array([int(t) for t in split_list(kv['ring'])], dtype=np.int64)
             m.update_values_pix(ring, values, nest=False, operation=kv.get('op', 'replace'))
         elif 'lon' in kv:
@@ -718,3 +729,11 @@ class Real(PackedOps, RandOps):
         except Exception as e:
             return 'err ' + type(e).__name__, line
         return ('ok' if ok else 'pixels-ranges-mismatch'), line
+
+    def op_set(self, pos, kv):
+        """m[a:b:c] = value"""
+        m = self.m(pos[0])
+        a, b, st = [int(t) for t in kv['slice'].split(':')]
+        values = None if kv.get('none') == '1' else self.scalar_for(m, kv['val'])
+        m[a:b:st] = values
+        return 'ok'
